@@ -4,6 +4,7 @@ use crate::interpose as ip;
 use crate::props::c0104::{quiet_panics, PANIC_MSG};
 use crate::runner::*;
 use crate::simproc::*;
+use crate::simproc::Agg;
 use proptest::prelude::*;
 use serde::{Deserialize, Serialize};
 use serde_json::Value;
@@ -55,6 +56,7 @@ pub struct OpRec {
     pub exit_at_before: Option<i64>,
     pub exit_at_after: Option<i64>,
     pub dead_after: bool,
+    pub agg: Agg,
 }
 
 pub struct ProcOutcome {
@@ -106,6 +108,8 @@ pub fn run_proc(case: &ProcCase) -> ProcOutcome {
             let exit_at_before = sim.exit_at;
             // per-operation system call budget (turns a busy loop into a verdict)
             sim.calls = 0;
+            sim.agg = Agg::default();
+            sim.op_log_start = sim.log.len();
             sim.budget = match &op {
                 HOp::WaitTimeout(d) => 256 + 4 * (*d / 100_000_000),
                 _ => 2000,
@@ -160,7 +164,7 @@ pub fn run_proc(case: &ProcCase) -> ProcOutcome {
                 DETACHED.with(|d| d.set(true));
             }
             let sim = unsafe { &mut *simp };
-            recs.push(OpRec { op, res, log_from, log_to: sim.log.len(), t_before, t_after: sim.now, exit_at_before, exit_at_after: sim.exit_at, dead_after: sim.dead() });
+            recs.push(OpRec { op, res, log_from, log_to: sim.log.len(), t_before, t_after: sim.now, exit_at_before, exit_at_after: sim.exit_at, dead_after: sim.dead(), agg: sim.agg });
         }
         // final drop (if still alive in the model the harness makes it mortal first)
         let sim = unsafe { &mut *simp };
@@ -172,7 +176,7 @@ pub fn run_proc(case: &ProcCase) -> ProcOutcome {
             let t_before = sim.now;
             drop(p);
             let sim = unsafe { &mut *simp };
-            recs.push(OpRec { op: HOp::Drop, res: OpResult::Skipped("implicit"), log_from: from, log_to: sim.log.len(), t_before, t_after: sim.now, exit_at_before: sim.exit_at, exit_at_after: sim.exit_at, dead_after: sim.dead() });
+            recs.push(OpRec { op: HOp::Drop, res: OpResult::Skipped("implicit"), log_from: from, log_to: sim.log.len(), t_before, t_after: sim.now, exit_at_before: sim.exit_at, exit_at_after: sim.exit_at, dead_after: sim.dead(), agg: Agg::default() });
         }
     }));
     ip::IN_LIB.store(false, SeqCst);
@@ -244,9 +248,9 @@ pub fn judge(focus: Focus, case: &ProcCase, o: &ProcOutcome, rep: &mut CaseRepor
     let mut c11_class: Option<String> = None;
     for (i, r) in o.recs.iter().enumerate() {
         let evs = &o.log[r.log_from..r.log_to];
-        let nwait = evs.iter().filter(|e| matches!(e, Ev::Waitpid { .. })).count();
+        let nwait = if matches!(r.op, HOp::Drop) && matches!(r.res, OpResult::Skipped("implicit")) { evs.iter().filter(|e| matches!(e, Ev::Waitpid { .. })).count() } else { r.agg.nwait as usize };
         let nkill = evs.iter().filter(|e| matches!(e, Ev::Kill { .. })).count();
-        let nsleep = evs.iter().filter(|e| matches!(e, Ev::Sleep { .. })).count();
+        let nsleep = if matches!(r.op, HOp::Drop) && matches!(r.res, OpResult::Skipped("implicit")) { 0 } else { r.agg.nsleep as usize };
         let known_before = known;
         // what this op's system calls revealed
         let mut learned: Option<ExitStatus> = None;
@@ -340,7 +344,7 @@ pub fn judge(focus: Focus, case: &ProcCase, o: &ProcOutcome, rep: &mut CaseRepor
                             if nwait > 1 {
                                 return fail("poll-many-waits", format!("op #{}: poll() made {} waitpid calls", i, nwait));
                             }
-                            if evs.iter().any(|e| matches!(e, Ev::Waitpid { opts, .. } if opts & libc::WNOHANG == 0)) {
+                            if r.agg.blocking_wait {
                                 return fail("poll-blocks", format!("op #{}: poll() issued a blocking waitpid", i));
                             }
                         }
@@ -357,7 +361,7 @@ pub fn judge(focus: Focus, case: &ProcCase, o: &ProcOutcome, rep: &mut CaseRepor
                                 let tr = r.t_after;
                                 let dl = t0.saturating_add(d);
                                 let x = r.exit_at_after; // includes signals sent earlier
-                                if evs.iter().any(|e| matches!(e, Ev::Waitpid { opts, .. } if opts & libc::WNOHANG == 0)) {
+                                if r.agg.blocking_wait {
                                     return fail("wait_timeout-blocks", format!("op #{}: blocking waitpid inside wait_timeout", i));
                                 }
                                 match st {
@@ -388,30 +392,11 @@ pub fn judge(focus: Focus, case: &ProcCase, o: &ProcOutcome, rep: &mut CaseRepor
                                 if nwait > bound {
                                     return fail("too-many-checks", format!("op #{}: {} waitpid calls for a duration of {} ns (bound {})", i, nwait, d, bound));
                                 }
-                                let mut prev_wait = false;
-                                for e in evs {
-                                    match e {
-                                        Ev::Waitpid { .. } => {
-                                            if prev_wait {
-                                                return fail("busy-wait", format!("op #{}: two status checks without sleeping in between", i));
-                                            }
-                                            prev_wait = true;
-                                        }
-                                        Ev::Sleep { ns, t } => {
-                                            if *ns <= 0 {
-                                                // a zero sleep between checks is spinning
-                                                if prev_wait {
-                                                    continue;
-                                                }
-                                            } else {
-                                                prev_wait = false;
-                                            }
-                                            if t.saturating_add(*ns) > dl.saturating_add(slack) {
-                                                return fail("oversleep", format!("op #{}: sleep of {} ns extends {} ns beyond the deadline", i, ns, t + ns - dl));
-                                            }
-                                        }
-                                        _ => {}
-                                    }
+                                if r.agg.busy_wait {
+                                    return fail("busy-wait", format!("op #{}: two status checks without sleeping in between", i));
+                                }
+                                if r.agg.max_sleep_end > dl.saturating_add(slack) {
+                                    return fail("oversleep", format!("op #{}: a sleep extends {} ns beyond the deadline", i, r.agg.max_sleep_end - dl));
                                 }
                                 // classification
                                 let dclass = if d == 0 { "0" } else if d < 1_000_000 { "sub-ms" } else if d < 1_000_000_000 { "ms" } else if d <= 3_600_000_000_000 { "s-h" } else { "days" };
@@ -565,7 +550,8 @@ fn dur_strategy(thorough: bool) -> BoxedStrategy<u64> {
         1 => 30_000_000_000u64..3_600_000_000_000,
     ];
     if thorough {
-        prop_oneof![40 => base, 1 => Just(86_400_000_000_000u64), 1 => (0u64..2_000_000_000).prop_map(|k| 25 * 86_400_000_000_000 - 1_000_000_000 + k)].boxed()
+        // a never-exiting child with a 25-day wait is 21.6 M loop iterations: keep such cases rare
+        prop_oneof![20_000 => base, 2 => Just(86_400_000_000_000u64), 1 => (0u64..2_000_000_000).prop_map(|k| 25 * 86_400_000_000_000 - 1_000_000_000 + k)].boxed()
     } else {
         base.boxed()
     }
@@ -587,7 +573,7 @@ fn plan_strategy() -> impl Strategy<Value = ProcPlan> {
 fn op_strategy(focus: Focus, thorough: bool) -> BoxedStrategy<HOp> {
     let adv = prop_oneof![1u64..2_000_000, 1_000_000u64..300_000_000, 1_000_000_000u64..20_000_000_000, Just(4_000_000_000_000u64)].prop_map(HOp::Advance);
     let sig = prop_oneof![Just(libc::SIGUSR1 as u8), Just(libc::SIGINT as u8), Just(libc::SIGHUP as u8), Just(0u8), 1u8..65].prop_map(HOp::SendSignal);
-    let wt = dur_strategy(thorough).prop_map(HOp::WaitTimeout);
+    let wt = dur_strategy(thorough && focus == Focus::C11).prop_map(HOp::WaitTimeout);
     match focus {
         Focus::C09 => prop_oneof![
             5 => Just(HOp::Poll), 3 => Just(HOp::Wait), 3 => wt, 3 => Just(HOp::Pid), 3 => Just(HOp::ExitStatus),
